@@ -130,8 +130,12 @@ pub fn run(r: &mut StdRng, shape: &Value) -> (Value, String) {
             "short" => set_tag(&mut tags, "mls_ciphersuite", tv(&["mls_ciphersuite", ["0x1", "0x001", "1", "0x00001"].choose(r).unwrap()])),
             "nothex" => set_tag(&mut tags, "mls_ciphersuite", tv(&["mls_ciphersuite", ["0x00zz", "0x000g", "0x 001"].choose(r).unwrap()])),
             "noprefix" => set_tag(&mut tags, "mls_ciphersuite", tv(&["mls_ciphersuite", ["000001", "0X0001", "x00001"].choose(r).unwrap()])),
-            // the right number of BYTES, but characters that straddle the offsets a byte-indexed parser cuts at
-            "utf8" => set_tag(&mut tags, "mls_ciphersuite", tv(&["mls_ciphersuite", ["\u{20ac}\u{20ac}", "0\u{e9}001", "0\u{20ac}01", "\u{1f600}01", "0x0\u{20ac}", "0x\u{e9}\u{e9}"].choose(r).unwrap()])),
+            // the right number of BYTES (6), but a multi-byte character straddling byte offset 1, 2 or 3 (where a byte-indexed
+            // parser would cut), or sitting wholly behind the prefix
+            "utf8s1" => set_tag(&mut tags, "mls_ciphersuite", tv(&["mls_ciphersuite", ["\u{20ac}\u{20ac}", "\u{e9}x001", "\u{1f600}01"].choose(r).unwrap()])),
+            "utf8s2" => set_tag(&mut tags, "mls_ciphersuite", tv(&["mls_ciphersuite", ["0\u{e9}001", "0\u{20ac}01"].choose(r).unwrap()])),
+            "utf8s3" => set_tag(&mut tags, "mls_ciphersuite", tv(&["mls_ciphersuite", ["0x\u{20ac}1", "0x\u{1f600}"].choose(r).unwrap()])),
+            "utf8in" => set_tag(&mut tags, "mls_ciphersuite", tv(&["mls_ciphersuite", ["0x\u{e9}\u{e9}", "0x0\u{20ac}"].choose(r).unwrap()])),
             _ => {}
         }
     }
@@ -146,7 +150,10 @@ pub fn run(r: &mut StdRng, shape: &Value) -> (Value, String) {
             "nof2ee" => set_tag(&mut tags, "mls_extensions", tv(&["mls_extensions", "0x000a", "0xf2ef"])),
             "no000a" => set_tag(&mut tags, "mls_extensions", tv(&["mls_extensions", "0xf2ee"])),
             "malformed" => set_tag(&mut tags, "mls_extensions", tv(&["mls_extensions", "0x000a", ["f2ee", "0xf2eeX", "0xf2e", "0xf2eg", ""].choose(r).unwrap()])),
-            "utf8" => set_tag(&mut tags, "mls_extensions", tv(&["mls_extensions", "0x000a", ["\u{20ac}\u{20ac}", "0\u{e9}2ee", "0x\u{e9}\u{e9}", "\u{1f600}ee", "0xf\u{20ac}"].choose(r).unwrap()])),
+            "utf8s1" => set_tag(&mut tags, "mls_extensions", tv(&["mls_extensions", "0x000a", ["\u{20ac}\u{20ac}", "\u{e9}x2ee", "\u{1f600}ee"].choose(r).unwrap()])),
+            "utf8s2" => set_tag(&mut tags, "mls_extensions", tv(&["mls_extensions", "0x000a", ["0\u{e9}2ee", "0\u{20ac}ee"].choose(r).unwrap()])),
+            "utf8s3" => set_tag(&mut tags, "mls_extensions", tv(&["mls_extensions", "0x000a", ["0x\u{20ac}e", "0x\u{1f600}"].choose(r).unwrap()])),
+            "utf8in" => set_tag(&mut tags, "mls_extensions", tv(&["mls_extensions", ["0x\u{e9}\u{e9}", "0xf\u{20ac}"].choose(r).unwrap(), "0xf2ee"])),
             _ => {}
         }
     }
